@@ -56,6 +56,30 @@ def _prog_pass_lines(chk, lines, label):
                             known_matcher=lambda req, ir, orc, hyps: base(req, ir, "(oracle fail " + " ".join(t for t in orc.split() if t.startswith("c11.")) + ")", hyps),
                             nontrivial=lambda r, i: TRI.search(i) is not None and any(a != b for _, a, b in TRI.findall(i)))
 
+def semstrict_oracle(req, impl_reply, second):
+    """materialised types: where the reference says strict acceptance is owed (an exact member of a surviving member of the
+    left operand that is not in the right operand), the compiled validator must accept in strict mode"""
+    if not impl_reply.startswith("(bits"):
+        return None
+    ib = TRI.findall(impl_reply)
+    sb = re.findall(r'\((\w+) "([01?]*)"\)', second.split("(hyp-failed")[0])
+    diffs = []
+    for (n1, d, s), (n2, owed) in zip(ib, sb):
+        for k in range(min(len(s), len(owed))):
+            if owed[k] == "1" and s[k] == "0":
+                diffs.append(f"{n1}#{k}:default={d[k]},strict=0,owed")
+    return "c11.rejects-declared (" + " ".join(diffs[:6]) + ")" if diffs else None
+
+def _pass_sem(seed, count, label):
+    def p(chk):
+        lines = chk.gen_js("sub-sem-strict", seed, count, 8)
+        engine = lambda c, ls: vcheck.two_stage(c, ls, stage2_mode="prog-strict")[0]
+        base = vcheck.known_by_hyp(chk, HYP)
+        return vcheck.corr_pass(chk, "prog-strict", lines, label, engine=engine, oracle_filter=vcheck.tag_filter(TAGS), extra_oracle=semstrict_oracle,
+                                known_matcher=lambda req, ir, orc, hyps: base(req, ir, "(oracle fail " + " ".join(t for t in orc.split() if t.startswith("c11.")) + ")", hyps),
+                                nontrivial=lambda r, i: TRI.search(i) is not None and any(a != b for _, a, b in TRI.findall(i)))
+    return p
+
 def _corpus_prog(chk):
     return _prog_pass_lines(chk, [l for l in vcheck.corpus_lines(PID) if l.startswith("(strict")], "compiled-strict(corpus)")
 
@@ -67,7 +91,8 @@ def _corpus(chk):
 def run(chk):
     chk.build_rust(); chk.build_js()
     quick = chk.tier == "quick"
-    passes = [_corpus, _corpus_prog] + ([_pass(chk.seed * 100 + 7, 6000, "rt(random)"), _pass_prog(chk.seed * 100 + 8, 1200, "compiled-strict(random)")] if quick else
+    passes = [_corpus, _corpus_prog] + ([_pass(chk.seed * 100 + 7, 6000, "rt(random)"), _pass_prog(chk.seed * 100 + 8, 1200, "compiled-strict(random)"), _pass_sem(chk.seed * 100 + 9, 400, "materialised-strict(random)")] if quick else
+                          [_pass_sem(chk.seed * 100 + 60 + k, 4000, f"materialised-strict(random#{k})") for k in range(2)] +
                           [_pass(chk.seed * 100 + k, 25000, f"rt(random#{k})") for k in range(8)] + [_pass_prog(chk.seed * 100 + 50 + k, 8000, f"compiled-strict(random#{k})") for k in range(3)])
     return vcheck.generic_run(chk, MODULES, AUDIT, passes,
         [PID + ": Model/{JsVal,RT,Validate,Parse,Report}.lean model codegen-v2.ts:34-2430 and err.ts by hand; property names outside the modelled vocabulary "
